@@ -179,6 +179,31 @@ func (e *execState) directOracles(bo *blockObs) {
 		check("vesting", a.VestEscrow, a.PayDenom, owedVest)
 	}
 
+	// ---------- paid-in tracker (C04): after this block's settlements, which precede its transactions
+	defer func() {
+		for i := range bo.Txs {
+			o := &bo.Txs[i]
+			if o.Code != 0 {
+				continue
+			}
+			tx := &bo.Blk.Txs[o.Idx]
+			if (tx.Msg.Kind != KPlaceBid && tx.Msg.Kind != KModifyBid) || tx.Msg.AuctionID >= uint64(len(cur.Auctions)) {
+				continue
+			}
+			a := &cur.Auctions[tx.Msg.AuctionID]
+			signer := e.addrOf(tx.Actor)
+			for _, tr := range normCalls(o.Calls) {
+				if tr.From == signer && tr.To == a.PayEscrow && tr.Denom == a.PayDenom {
+					k := fmt.Sprintf("%d|%s", a.ID, signer)
+					if e.paidIn[k] == nil {
+						e.paidIn[k] = new(big.Int)
+					}
+					e.paidIn[k].Add(e.paidIn[k], tr.Amt)
+				}
+			}
+		}
+	}()
+
 	// ---------- C02: zero-sum over everything the module touched in this block
 	{
 		funded := map[string]*big.Int{}
@@ -820,6 +845,19 @@ func (e *execState) c04Settlement(bo *blockObs, a *SAuction, recv map[string]*bi
 		reserved[b.Bidder].Add(reserved[b.Bidder], sbidReserve(a, b))
 		if b.Matched {
 			nMatched[b.Bidder]++
+		}
+	}
+	// what the bidder really put in: the transfers of the accepted bids and modifications, recorded when
+	// they happened (a modification that charges more than the increase in required reservation is
+	// invisible in the stored bids)
+	if a.Type == TypeBatch {
+		for bidder := range reserved {
+			if v := e.paidIn[fmt.Sprintf("%d|%s", a.ID, bidder)]; v != nil {
+				if v.Cmp(reserved[bidder]) != 0 {
+					e.res.Stats.Probes["paid_in_differs_from_recorded_reservation"]++
+				}
+				reserved[bidder] = new(big.Int).Set(v)
+			}
 		}
 	}
 	refund := map[string]*big.Int{}
